@@ -228,6 +228,7 @@ def run(rep):
                 rep.ob("R4-capture-used", f"{name}:{lb}", lb in used, PARSER, rule.line,
                        f"grammar rule {name}() captures `{lb}` but its action drops it")
     rep.floor("R4-capture-used", 90)
+    rule_header_flags(rep, R)
 
 
 def _flat(toks):
@@ -313,3 +314,65 @@ def _reg_producible(lit):
             if v in used:
                 _REGS |= ks
     return lit in _REGS
+
+
+def rule_header_flags(rep, rules):
+    """R5: the function header is printed as a sequence of independently optional keywords (`pub `, `entry `, `entry_orig `,
+    `fallback `: each one is `if <flag> { "kw " } else { "" }`), so any subset can appear. The grammar must accept any subset: each
+    keyword needs its own optional element in rule fn_decl before the literal `fn`. Two keywords sharing one element are mutually
+    exclusive for the parser, and a function carrying both flags prints a header that does not parse back."""
+    PR = "sway-ir/src/printer.rs"
+    t = tab.tree(PR)
+    headers = [n for n in tab.walk(t) if n.get("k") == "Macro" and n.get("name") == "format" and n.get("args") and n["args"][0].get("t") == "str" and
+               re.fullmatch(r"(\{\})+fn \{\}", n["args"][0]["v"])]
+    if len(headers) != 1:
+        raise AnalysisError(f"C05 R5: expected one function-header format string in printer.rs, found {len(headers)}")
+    h = headers[0]
+    vars_ = [tab.show(a) for a in h["args"][1:-1]]
+    fn_node = [f_ for f_ in tab.walk(t) if f_.get("k") == "Fn" and f_.get("body") and any(x is h for x in tab.walk(f_["body"]))][0]
+    lets = {names[0]: init for l_, names, _, init in tab.lets(fn_node["body"]) if names and init is not None}
+    printed = []
+    for v in vars_:
+        init = lets.get(v)
+        kws = sorted({x["v"].strip() for x in tab.walk(init or {}) if x.get("k") == "Lit" and x.get("t") == "str" and x["v"].strip()})
+        empties = [x for x in tab.walk(init or {}) if x.get("k") == "Lit" and x.get("t") == "str" and x["v"] == ""]
+        if init is None or init.get("k") != "If" or len(kws) != 1 or not empties:
+            raise AnalysisError(f"C05 R5: header piece `{v}` is not of the form if .. {{ \"kw \" }} else {{ \"\" }}")
+        printed.append(kws[0])
+    # grammar side
+    fd = rules.get("fn_decl")
+    if fd is None:
+        raise AnalysisError("C05 R5: rule fn_decl not found")
+    toks = fd.alts[0]
+    stop = next((i for i, x in enumerate(toks) if x.get("lit") == '"fn"'), None)
+    if stop is None:
+        raise AnalysisError("C05 R5: literal \"fn\" not found in rule fn_decl")
+    prefix = toks[:stop]
+    elems = []  # (rule name, set of first literals, optional?)
+    i = 0
+    while i < len(prefix):
+        x = prefix[i]
+        if "i" in x and i + 1 < len(prefix) and prefix[i + 1].get("g") == "(" and x["i"] not in ("_", "__"):
+            name = x["i"]
+            opt = i + 2 < len(prefix) and peg._is_p(prefix[i + 2], "?")
+            lits = set()
+            nullable = opt
+            for a in rules[name].alts if name in rules else []:
+                fl = peg.first_literals(rules, a)
+                lits |= {l for l in fl if l}
+                if "" in fl or not fl:
+                    nullable = True
+            elems.append((name, lits, nullable))
+            i += 2
+            continue
+        i += 1
+    for kw in printed:
+        owners = [e for e in elems if kw in e[1]]
+        shared = [k2 for k2 in printed if k2 != kw and owners and k2 in owners[0][1]]
+        ok = len(owners) == 1 and owners[0][2] and not shared
+        rep.ob("R5-header-keywords-independently-optional", kw, ok, "sway-ir/src/parser.rs", fd.line,
+               f"the printer emits `{kw}` independently of the other header keywords, but in rule fn_decl it is " +
+               ("not accepted by exactly one optional element" if len(owners) != 1 or not owners[0][2] else
+                f"parsed by the same element (`{owners[0][0]}`) as {shared}: the two keywords exclude each other, so a function with both flags prints a header that does not parse"))
+    rep.floor("R5-header-keywords-independently-optional", 4)
+
